@@ -13,7 +13,7 @@ def gen_preamble(rng):
     bps = []
     for _ in range(rng.choice([1, 1, 2, 3, 8])):
         bp = G.gen_bp(rng, simple=False, tps=rng.choice([1, 1000, 2**64 - 1, rng.randrange(1, 2**40)]),
-                      maxb=rng.choice([1, 5, 2**64 - 1, 10000]))
+                      maxb=rng.choice([0, 1, 5, 2**64 - 1, 2**32, 10000]))
         if rng.random() < 0.3:
             bp["qrh"], bp["sigh"], bp["rrh"], bp["odh"] = rng.choice([0, 2**32 - 1, 2**18 - 1]), rng.choice([0, 2**32 - 1]), rng.choice([0, 255, 3]), rng.choice([255, 3])
         if rng.random() < 0.2:
@@ -22,7 +22,6 @@ def gen_preamble(rng):
         bps.append(bp)
     # the first set must let one record through so that the file is written at all
     bps[0]["qrh"] = bps[0].get("qrh", G.ALL_QRH) | 4
-    bps[0]["max"] = max(1, bps[0]["max"])
     return fp, bps
 
 
